@@ -100,6 +100,12 @@ def nt_c10(tr):
     return has(tr, 22) and (ticks >= 2 or has(tr, 18))
 
 
+def nt_c04(tr):
+    # an await / halt that resolved, on an actor that had messages queued or handled, with a stop request or a last drop or a failure
+    waits = {e[1] for e in tr if e[0] == 5 and e[4] in (5, 6, 7)}
+    return bool(waits) and any(e[0] == 6 and e[1] in waits and e[2] in (0, 2) for e in tr) and has(tr, 8) and has(tr, 14)
+
+
 PROPS = {
     "C07": {
         "families": [("restart", 1000, 25000), ("timers", 400, 10000), ("lifecycle", 200, 6000)],
@@ -175,6 +181,15 @@ PROPS = {
         "rule": "cases generated from (family, VERIF_SEED, index): harness-controlled streams (empty, finite, never-ending, released in bursts by client operations) on every stream spawn entry point, with messages, stops, handle drops interleaved; non-trivial = a stream-attached actor handled at least one item and also a message or a stop request; distinct = distinct case JSON",
         "assumptions": ["the select! tie-break is not seeded: every outcome the implementation produced is read off its trace"],
     },
+    "C04": {
+        "families": [("stop-race", 900, 25000), ("lifecycle", 300, 8000), ("handles", 200, 6000), ("faults", 300, 8000)],
+        "monitors": ["C04", "C03"],
+        "theorems": ["C04_announce", "C04_nothing_after_stop", "C04_stop_is_a_barrier", "C04_last_drop_drains"],
+        "nontrivial": nt_c04,
+        "rule": "cases generated from (family, VERIF_SEED, index): several client tasks sending, calling and stopping one actor concurrently (stop, halt, Context::stop from handlers), last-drop of every handle kind at random points, handlers with sleeps so that messages queue up behind a stop request, awaits by value and through &mut before and after termination, every failure kind; non-trivial = an await or halt resolved on an actor that handled messages and whose task ended; distinct = distinct case JSON",
+        "assumptions": ["'accepted before / after the stop' is judged by real-time order on the single-threaded executor: a submission whose call returned before the stop request was issued is before it; one issued after the stop call returned is after it; concurrent ones may fall either way",
+                        "F9 (awaiting an Addr again after it was awaited to completion through &mut panics inside futures::Shared) is avoided by the generators and recorded as a known finding"],
+    },
     "C14": {
         "families": [("liveness-query", 900, 25000), ("registry-liveness", 500, 12000), ("faults", 200, 6000)],
         "monitors": ["C14"],
@@ -209,6 +224,14 @@ COMMON_NOTE = ("Trusted: Coq kernel; the hand-written model's fidelity (checked 
                "No axioms. Real-thread races inside external crates and real wake-ups beyond the sampled cases are outside.")
 
 MANIFEST_TEXT = {
+    "C04": {
+        "text": "Theorems (Coq): C04_announce (simulation, every accepted trace: an await by value or through &mut and a halt resolve only after the addressed task ended, Ok exactly when the task returned right after its last stopped(), Err otherwise), "
+                "C04_stop_is_a_barrier + C04_nothing_after_stop (a stop request leaves the queue as its head and the loop goes straight to finished()/stopped(); nothing is handled afterwards), C04_last_drop_drains (the closed-channel exit is taken only with an empty queue and no sender left). "
+                "[partial] 'every message whose send completed before the stop is handled' and 'submissions after the stop fail' follow from FIFO (C01) and the closed mailbox in the model; as trace statements they are checked by the search acceptor and by correspondence, not stated as one theorem.",
+        "note": COMMON_NOTE,
+        "technique": "Rocq/Coq proof (simulation to an extracted acceptor + one-step theorems over all states) over an executable model; correspondence by differential run of model and implementation",
+        "design_ref": "DESIGN.md section 6 C04",
+    },
     "C07": {
         "text": "Theorems (Coq): C07_restart_keeps_identity_and_mailbox and C07_restart_yields_fresh_incarnation (one-step, every state: processing a restart removes only the request, keeps queue, reference counts and handles; the end of the restart's stopped() aborts every timer, resets the state exactly for recreate-from-default), "
                 "C07_cut_timers_never_fire (for every continuation of any length: an aborted timer never fires again), C07_restart_callbacks (lifecycle automaton: stopped then started, failed started = failed end). Correspondence on the restart family; search acceptor for ticks after a restart and state carry-over.",
